@@ -18,6 +18,7 @@ Cases ==
   \cup { [ctx |-> "fields-nonstrict", ty |-> "i16", items |-> q] : q \in One \cup TwoField \cup ThreeField }
   \cup { [ctx |-> c, ty |-> t, items |-> q] : c \in {"const", "default", "list", "mapkey", "typedef-const"},
                                                t \in {"i8", "byte", "i16", "i32", "i64"}, q \in One }
+  \cup { [ctx |-> c, ty |-> t, items |-> q] : c \in {"enumitem-const", "enumitem-default", "enumitem-list"}, t \in {"i8", "i16", "i32", "i64"}, q \in One }
   \cup { [ctx |-> c, ty |-> "enum", items |-> q] : c \in {"enum-const", "enum-default", "enum-list"}, q \in One }
   \cup { [ctx |-> c, ty |-> "i32", items |-> << Item(TRUE, "1") >>] :
            c \in {"dup-id", "dup-name", "dup-item", "dup-item-case", "self-const", "self-const-2", "self-const-struct", "self-const-struct-2", "self-const-list", "self-service", "self-service-2", "dup-fn", "throws-typedef", "throws-struct", "throws-primitive", "oneway-result", "oneway-throws", "dup-param-id", "dup-param-name", "dup-throws-id", "union-required", "extends-struct", "extends-missing", "dup-type-name"} }
